@@ -87,7 +87,7 @@ def cell(c):
     if c["t"] == "f":
         return "CF %s %s" % (fval(c["f"]), s(c["txt"]))
     if c["t"] == "b":
-        return "CB %s" % g.b(c["v"])
+        return "CB %s %s" % (g.b(c["v"]), s(c["txt"]))
     return "CS %s" % s(c["v"])
 
 
@@ -307,4 +307,4 @@ def run(ctx):
         "compared with a fresh model instance put into the served action set, not recomputed in Coq",
         "parse-level views (TOML decode + interpret + initialise, encoding/csv + caster, encoding/json, route regexps) are "
         "inputs of the model, computed by the harness with the same library calls on fresh objects",
-        "the model is written from the engine sources with the fix series proposed_fixes/SERIES-C14C15.txt applied"]
+        "the model is written from the engine sources as committed in /repo (fix series proposed_fixes/SERIES-C14C15.txt + CSV cell-text fix b0400cb)"]
